@@ -146,7 +146,7 @@ pub fn suites() -> Vec<Suite> {
         thorough_cases: 300_000,
         run,
         direct: Some(direct_with::<C13Oracle>),
-        must_hit: &["shape:empty", "shape:multiple-dangling-outputs", "shape:single-output", "r:route-ok", "r:route-failed", "hops:1", "hops:2", "hops:3", "hops:4+", "entry:native", "entry:cw20", "mix:native+cw20", "to:other", "x:excluded-repeated-pair"],
+        must_hit: &["shape:empty", "shape:multiple-dangling-outputs", "shape:single-output", "r:route-ok", "r:route-failed", "hops:1", "hops:2", "hops:3", "hops:4+", "entry:native", "entry:cw20", "mix:native+cw20", "to:other", "x:excluded-repeated-pair", "x:excluded-router-holds-assets"],
     }]
 }
 
